@@ -1,12 +1,20 @@
-"""Re-run every kept seeded change against the current checks and rewrite its meta.json and seeded/README.md."""
+"""Re-run every kept seeded change (or only the ids given as arguments) against the current checks and rewrite its
+meta.json and seeded/README.md."""
 import glob
 import json
 import os
 import subprocess
 
+import sys
+
+only = set(sys.argv[1:])          # optional: ids (C03-3 ...) to re-evaluate; the others keep their recorded result
 rows = []
 for d in sorted(glob.glob("/verif/seeded/C*-*")):
     meta = json.load(open(f"{d}/meta.json"))
+    if only and os.path.basename(d) not in only:
+        rows.append((os.path.basename(d), meta["property"], meta.get("summary") or "", meta.get("needs") or "",
+                     meta.get("caught_by", []), meta.get("confirmed")))
+        continue
     prop = meta["property"]
     checks = sorted(set([prop] + [c for c in meta.get("caught_by", []) if c != prop]))
     r = subprocess.run(["/venv/bin/python", "/verif/tools/eval_mutant.py", f"{d}/patch.diff", f"{d}/demo.py"] + checks,
